@@ -450,3 +450,29 @@ Theorem C16_code_normalizeIntToSeconds_is_model : forall z, (-922337203685477580
   Proto.norm_int_to_seconds z = (if (0 <? z)%Z then Some (Z.to_N (gen_normalizeIntToSeconds z)) else None).
 Proof. exact gen_normalizeIntToSeconds_is_model. Qed.
 Print Assumptions C16_code_normalizeIntToSeconds_is_model.
+
+(* ==== ES bulk through aliases and jaeger-* indices: the time key follows the REAL index ==== *)
+Theorem C16_es_route_plain_time : forall x al name u v attrs dec now0 tsNow clock,
+  plain_index (real_index al name) -> in_range_num u v = true ->
+  final_ts x (es_build (WNum (Z.of_N v)) attrs) (real_index al name) dec now0 tsNow clock = instant_ms u v.
+Proof. exact es_route_plain_time_num. Qed.
+Print Assumptions C16_es_route_plain_time.
+
+Theorem C16_es_route_jaeger_time : forall x al name u v t attrs dec now0 tsNow clock,
+  jaeger_index (real_index al name) -> lookup k_jaeger_ts attrs = Some (SInt (Z.of_N v)) ->
+  in_range_num u v = true ->
+  final_ts x (es_build t attrs) (real_index al name) dec now0 tsNow clock = instant_ms u v.
+Proof. exact es_route_jaeger_time_num. Qed.
+Print Assumptions C16_es_route_jaeger_time.
+
+Theorem C16_es_route_jaeger_arrival_only_without_time : forall x al name t attrs dec now0 tsNow clock,
+  jaeger_index (real_index al name) -> lookup k_jaeger_ts attrs = None ->
+  final_ts x (es_build t attrs) (real_index al name) dec now0 tsNow clock = tsNow.
+Proof. exact es_route_jaeger_no_time. Qed.
+Print Assumptions C16_es_route_jaeger_arrival_only_without_time.
+
+Theorem C16_es_route_name_irrelevant : forall x al n1 n2 e dec now0 tsNow clock,
+  real_index al n1 = real_index al n2 ->
+  final_ts x e (real_index al n1) dec now0 tsNow clock = final_ts x e (real_index al n2) dec now0 tsNow clock.
+Proof. exact es_route_name_irrelevant. Qed.
+Print Assumptions C16_es_route_name_irrelevant.
